@@ -268,9 +268,21 @@ def check_user_view(mc, md):
             kids = sorted(q[len(p) + 1:] for q in md.tree if q.startswith(p + "/") and "/" not in q[len(p) + 1:])
             if sorted(mc[p].keys()) != kids or len(mc[p]) != len(kids):
                 return ("listing differs", p, sorted(mc[p].keys()), kids)
+            try:
+                rv = sorted(reversed(mc[p]))
+            except Exception:  # noqa  (refusing reversed() is fine)
+                rv = None
+            if rv is not None and rv != kids:
+                return ("reversed() listing differs", p, rv, kids)
     top = sorted(q for q in md.tree if "/" not in q)
     if sorted(mc.keys()) != top:
         return ("root listing differs", sorted(mc.keys()), top)
+    try:
+        rv = sorted(reversed(mc))
+    except Exception:  # noqa
+        rv = None
+    if rv is not None and rv != top:
+        return ("reversed() root listing differs", rv, top)
     return None
 
 
